@@ -181,6 +181,11 @@ impl FlowSetBody {
         match id {
             _ if id == TEMPLATE_ID => {
                 let (i, templates) = Templates::parse(i)?;
+                // A template id names one template: this definition supersedes an options
+                // template received earlier under the same id.
+                for template in &templates.templates {
+                    parser.options_templates.remove(&template.template_id);
+                }
                 parser.templates.extend(
                     templates
                         .templates
@@ -191,6 +196,10 @@ impl FlowSetBody {
             }
             _ if id == OPTIONS_TEMPLATE_ID => {
                 let (i, options_templates) = OptionsTemplates::parse(i)?;
+                // ... and an options template supersedes a template of the same id.
+                for template in &options_templates.templates {
+                    parser.templates.remove(&template.template_id);
+                }
                 parser.options_templates.extend(
                     options_templates
                         .templates
